@@ -86,14 +86,14 @@ def gen(args):
     from harness import selectors as H
     rng = np.random.default_rng([sd, wid, 606])
     out = []
-    for t in range(n):
+    for t in core.timed(range(n)):
         X, kind = data(H, rng, big)
         N = X.shape[0]
         ffs = [None, 0.01, 0.3, 1.0, 1 / 128, 0.9]
         ff = ffs[int(rng.integers(len(ffs)))]
         r = rng.random()
         if r < 0.3:
-            rs = int(rng.integers(1000))
+            rs = int(rng.integers(1000)) if rng.random() < 0.7 else 0      # 0 is the documented default (then omitted half of the time)
             kw = {"initialize": "random", "random_state": rs}
             init = [int(np.random.RandomState(rs).randint(N))]
         else:
